@@ -294,7 +294,9 @@ def _c07():
                 "fuzzy_round of negative numbers (no caller passes one), doubles outside the windows, transitivity of fuzzy equality",
                 stubs=[EPS_STUB, RS_STUB, FMT_STUB, "Number::convert -> contract stub (dumped table)",
                        "alloc::fmt::format -> digit-string contract for `{:.10}` (printing harnesses): one integer digit, '.', ten "
-                       "digits, assumed correctly rounded", "engine F: C models of floor/ceil/round/trunc/fabs/fma (CBMC built-ins) and an exact long-division "
+                       "digits, assumed correctly rounded",
+                       "Vec::append -> element-wise copy (printing harnesses): Kani 0.68/CBMC 6.11 give a spurious counterexample for the "
+                       "bulk copy in append_elements after slicing a trimmed string (reproduced in isolation)", "engine F: C models of floor/ceil/round/trunc/fabs/fma (CBMC built-ins) and an exact long-division "
                        "model of f64 `%` (CBMC's own fmod is wrong); the MIR->C translation is validated natively against the real "
                        "functions on ~24k inputs every run"],
                 pre=[engine_t.dump_units, engine_t.check_epsilon])
